@@ -232,6 +232,8 @@ func c01Scenarios(tier string) []*world.Scenario {
 			}
 		}
 	}
+	// a slow client with more than 64 KiB parked, a partial drain, then further forwarded and local replies
+	out = append(out, SlowClientOverflow("C01", 40000, 2))
 	// more replies / fragments than one vectored write takes (1024 slices)
 	out = append(out, BigBatch("C01", 1100, false, 1), BigBatch("C01", 1100, true, 1), BigBatch("C01", 2100, false, 0))
 	// exactly 1024 / 2048 (and one less, one more) fragments for one connection and replies in one flush
